@@ -37,7 +37,9 @@ THEOREMS['C04'] = ['FB.C04_exists_iff', 'FB.C04_not_both', 'FB.C04_listDir_iff',
                    'FB.BuildDirs.C04_isRemoved_iff_gone', 'FB.BuildDirs.isRemoved_spec', 'FB.BuildDirs.checkMaybeRemoved_spec',
                    'FB.BuildDirs.checkLoop_spec', 'FB.BuildDirs.handleDirExists_qinv', 'FB.BuildDirs.qreach_qinv',
                    'FB.Overlay.not_both', 'FB.Overlay.exists_eq', 'FB.Overlay.filterExisting_sub',
-                   'FB.Overlay.C04_start_exists', 'FB.Overlay.start_isFile', 'FB.Overlay.start_isDir']
+                   'FB.Overlay.C04_start_exists', 'FB.Overlay.start_isFile', 'FB.Overlay.start_isDir',
+                   'FB.Overlay.C04_start_matches_spec', 'FB.BuildDirs.preClean_gone_iff', 'FB.BuildDirs.preClean_isDir_iff',
+                   'FB.BuildDirs.preClean_isFile_iff']
 THEOREMS['C02'] = ['FB.C02_rolledBack_frame', 'FB.C02_rolledBack_files', 'FB.C02_spec_build_raises', 'FB.Backups.restoreAll_spec',
                    'FB.Backups.restoreOne_self', 'FB.Backups.restoreOne_other', 'FB.Backups.backUp_file',
                    'FB.Rollback.rollBack_restores_files', 'FB.Rollback.removeNew_spec', 'FB.Rollback.restoreAll_file_from',
@@ -49,7 +51,8 @@ THEOREMS['C16'] = ['FB.Codec.decode_encode', 'FB.Codec.decodeOps_encodeOps', 'FB
                    'FB.Codec.replayOps_strip', 'FB.Codec.isEqual_textRT', 'FB.Codec.textRT_of_wf']
 THEOREMS['C10'] = ['FB.C10_success', 'FB.C10_failure', 'FB.C10_setup']
 THEOREMS['C12'] = ['FB.C12_preClean_frame', 'FB.C12_clean_noop_without_cache', 'FB.C12_clean_idempotent',
-                   'FB.C12_impl_clean_is_preClean']
+                   'FB.C12_impl_clean_is_preClean', 'FB.BuildDirs.preClean_gone_iff', 'FB.BuildDirs.preClean_isFile_iff',
+                   'FB.BuildDirs.preClean_isDir_iff']
 THEOREMS['C15'] = ['FB.C15_spec_build_refused', 'FB.C15_impl_build_refused', 'FB.C15_spec_clean_refused']
 THEOREMS['C18'] = ['FB.sanitize_shape', 'FB.sanitize_idempotent', 'FB.sanitize_rejects_iff', 'FB.isEqual_refl',
                    'FB.isEqual_symm', 'FB.isEqual_trans', 'FB.toHashable_iff',
